@@ -318,7 +318,7 @@ class Engine:
         try:
             res = REAL_NEWTON(*args, **kw)
         except BaseException as e:
-            if isinstance(e, (Violation, Discard, HarnessError, Unexpected)):
+            if isinstance(e, (Violation, Discard, HarnessError, Unexpected, Misbehaviour)):
                 raise
             if origin(e) == "harness":
                 import traceback
@@ -392,6 +392,9 @@ class Engine:
         self.callbacks.append(rec)
         for m in self.monitors:
             m.on_callback(self, rec)
+        if getattr(self.w, "shadow", None) is not None:
+            self.w.poke_shadow()
+            self.log.count("shadow-model-evaluated")
         f = self._fault_at(("callback_raise", "callback_kbint"), step=j, substep=i)
         if f:
             self._fire(f)
